@@ -81,9 +81,21 @@ class TempDir:
         self.path = tempfile.mkdtemp(prefix="verif_dir_")
         for name, data, meta in files:
             if meta.get("kind") == "unreadable":
-                # a directory entry that cannot be opened: a symbolic link whose target is gone (what a file purged
-                # between the listing and the read looks like)
-                os.symlink(os.path.join(self.path, "..", "verif_no_such_target"), os.path.join(self.path, name))
+                # a directory entry that cannot be opened, for one reason or another: a symbolic link whose target is gone (what
+                # a file purged between the listing and the read looks like, ENOENT), a link to itself (ELOOP), a socket (ENXIO)
+                how = meta.get("how", "dangling")
+                full = os.path.join(self.path, name)
+                if how == "loop":
+                    os.symlink(name, full)
+                elif how == "socket":
+                    import socket
+                    sk = socket.socket(socket.AF_UNIX, socket.SOCK_STREAM)
+                    try:
+                        sk.bind(full)
+                    finally:
+                        sk.close()
+                else:
+                    os.symlink(os.path.join(self.path, "..", "verif_no_such_target"), full)
                 continue
             with open(os.path.join(self.path, name), "wb") as f:
                 f.write(data)
